@@ -27,7 +27,8 @@ def plan(tier):
         specs = [("pwc", ("reg", 4), 3), ("pwl", ("reg", 4), 3), ("pwc", ("reg", 5), 2),
                  ("pwl", ("reg", 5), 2), ("pwc", ("reg", 6), 1), ("pwl", ("reg", 6), 1),
                  ("pwc", ("near", 3), 2), ("pwl", ("near", 3), 2),
-                 ("pwc", ("far", 4), 1), ("pwl", ("far", 4), 2)]
+                 ("pwc", ("far", 4), 1), ("pwl", ("far", 4), 2),
+                 ("pwc", ("tiny", 3), 1), ("pwl", ("tiny", 3), 1)]
     else:
         specs = [("pwc", ("reg", 4), 3), ("pwl", ("reg", 4), 3), ("pwc", ("reg", 5), 2),
                  ("pwl", ("reg", 5), 2), ("pwc", ("reg", 6), 2), ("pwl", ("reg", 6), 2),
